@@ -663,6 +663,8 @@ struct GenState {
     iter_snapless: usize,
     /// the previous operation wrote a giant value (it is still in the write-ahead log)
     just_giant: bool,
+    /// batches generated so far (every 7th is empty, every 7th + 2 has one operation)
+    nbatches: usize,
 }
 
 fn gen_value(rng: &mut StdRng, g: &mut GenState, cfg: &HistCfg, memtable: usize) -> ValSpec {
@@ -823,6 +825,13 @@ fn gen_op(rng: &mut StdRng, g: &mut GenState, cfg: &HistCfg, cur: &OptSet) -> Op
         }
     } else if r < 66 {
         let n = rng.gen_range(2..=5);
+        g.nbatches += 1;
+        // an empty batch (consumes no sequence number) and a one-operation batch now and then
+        let n = match g.nbatches % 7 {
+            3 => 0,
+            5 => 1,
+            _ => n,
+        };
         let ops = (0..n)
             .map(|_| {
                 let k = gen_key(rng, g, cfg);
@@ -1013,6 +1022,7 @@ pub fn run_hist(
         niters: 0,
         iter_snapless: 0,
         just_giant: false,
+        nbatches: 0,
     };
     let mut status = "ok".to_string();
     let mut detail = String::new();
